@@ -221,7 +221,8 @@ impl<Deco: Decoration> fmt::Display for WithContext<'_, Posting<'_, Deco>> {
             let balance_padding = if post.amount.is_some() {
                 0
             } else {
-                get_column(50 + trailing, account_width, 2)
+                // " =" is right-aligned in this width, keep two spaces after the account.
+                get_column(50 + trailing, account_width, 3)
             };
             write!(
                 f,
